@@ -18,10 +18,12 @@ TOnone == (1 :> -1) @@ (2 :> -1) @@ (3 :> -1)
 TO2 == (1 :> -1) @@ (2 :> 1) @@ (3 :> -1)
 TO0 == (1 :> -1) @@ (2 :> 0) @@ (3 :> -1)
 Cfg(o, mc, mk, ex, to, mux, mg) ==
-  [originOf |-> o, maxConn |-> mc, maxKeep |-> mk, expiry |-> ex, poolTO |-> to, mux |-> mux, muxGuess |-> mg, noKeep |-> {}]
+  [originOf |-> o, maxConn |-> mc, maxKeep |-> mk, expiry |-> ex, poolTO |-> to, mux |-> mux, muxGuess |-> mg, noKeep |-> {}, dev |-> {}]
 CfgNK(o, mc, mk, ex, to, mux, mg, nk) == [Cfg(o, mc, mk, ex, to, mux, mg) EXCEPT !.noKeep = nk]
 \* quick: one connection, keep-alive with expiry, one pool timeout
 CfgsQ1 == {Cfg(OrgAAB, 1, 1, 1, TO2, {}, {}), CfgNK(OrgAAB, 1, 1, -1, TOnone, {}, {}, {1})}
+CfgsQ1a == {Cfg(OrgAAB, 1, 1, 1, TO2, {}, {})}
+CfgsQ3a == {Cfg(OrgAAA, 1, 1, -1, TOnone, {}, {"A"})}
 \* two connections, keep-alive limit below the connection limit
 CfgsQ2 == {Cfg(OrgABA, 2, 1, -1, TOnone, {}, {})}
 \* HTTP/2 guess that turns out HTTP/1.1 (re-queue), and real HTTP/2
@@ -40,6 +42,10 @@ OrgAB2 == (1 :> "A") @@ (2 :> "B")
 TOnone2 == (1 :> -1) @@ (2 :> -1)
 CfgsL1 == {Cfg(OrgAA2, 1, 1, -1, TOnone2, {}, {}), Cfg(OrgAB2, 1, 1, -1, TOnone2, {}, {}), Cfg(OrgAA2, 1, 1, -1, TOnone2, {}, {"A"})}
 DevReconn == {"ReconnectOnFailed"}
+\* pool timeouts: deadline before / at / after the slot is freed; a zero timeout
+TO3 == (1 :> -1) @@ (2 :> 2) @@ (3 :> 0)
+TO4 == (1 :> -1) @@ (2 :> 1) @@ (3 :> 3)
+CfgsTO == {Cfg(OrgAAB, 1, 1, -1, TO3, {}, {}), Cfg(OrgABA, 1, 1, -1, TO4, {}, {})}
 DevLimit == {"CreateAtLimit"}
 DevNoRemove == {"ForgetRemove"}
 DevNoPass == {"NoPassOnLeave"}
